@@ -77,7 +77,15 @@ OutXonlyTweakCheck(i) ==
   IF ~p[1] THEN [ pret |-> 0, icb |-> 0 ]
   ELSE [ pret |-> 1, ret |-> B2I(KaTweakAddCheck(i.ox, i.par, p[2], i.t)), icb |-> 0 ]
 
-Out(ev) == CASE ev.e = "KeyChain"        -> OutKeyChain(ev.in)
+\* secret-side operation on raw key bytes: an invalid key (0 or >= n) makes every operation fail and leaves no usable key
+OutSeckeyRaw(i) ==
+  LET ps == ParseSecret(i.key) IN
+  IF ~ps[1] THEN [ ret |-> 0, skok |-> 0, icb |-> 0 ]
+  ELSE LET r == CASE i.op = 1 -> KaSecTweakAdd(ps[2], i.t) [] i.op = 2 -> KaSecTweakMul(ps[2], i.t) [] i.op = 3 -> KaSecNegate(ps[2]) IN
+       IF r[1] THEN [ ret |-> 1, skok |-> 1, sk |-> KB(r[2]), icb |-> 0 ] ELSE [ ret |-> 0, skok |-> 0, icb |-> 0 ]
+
+Out(ev) == CASE ev.e = "SeckeyRaw"       -> OutSeckeyRaw(ev.in)
+             [] ev.e = "KeyChain"        -> OutKeyChain(ev.in)
              [] ev.e = "PubkeyCreate"    -> OutPubkeyCreate(ev.in)
              [] ev.e = "KeypairCreate"   -> OutKeypairCreate(ev.in)
              [] ev.e = "PubkeyCombine"   -> OutPubkeyCombine(ev.in)
@@ -175,6 +183,8 @@ Cases ==
   \cup { << "sort", len, mode, bi, 0 >> : len \in SortLens, mode \in (IF Thorough THEN 1..4 ELSE 1..2), bi \in (IF Thorough THEN 1..2 ELSE {2}) }
   \cup { << "sort", len, mode, 1, 0 >> : len \in { 2, 41 }, mode \in 3..4 }
   \cup { << "sort", len, 1, 2, al >> : len \in { 5, 41, 64 }, al \in { 2, 3 } }
+  \cup { << "skraw", v, op, t >> : v \in { Zero, One, Sub(N, One), N, Add(N, One), KMax256 }, op \in {1, 2, 3}, t \in { One, FromNat(5), Sub(N, One) } }
+  \cup { << "tchkwrap", x, v >> : x \in 1..8, v \in {0, 1} }
   \cup { << "tchk", ki, tk, mut >> : ki \in (IF Thorough THEN { 1, 4, 8, 9 } ELSE { 4, 8 }), tk \in (IF Thorough THEN { 1, 2, 3, 4, 5, 8, 13, 19 } ELSE { 1, 3, 4, 5, 8, 19 }), mut \in 0..6 }
 
 ExpandTchk(ki, tk, mut) ==
@@ -221,8 +231,21 @@ ExpandTiny(c) ==
          [ e |-> "XonlyTweakCheck", in |-> [ ix |-> X32(Q), t |-> KB(c[3]), ox |-> ox, par |-> c[5] ] ]
     [] c[1] = "tkp" -> [ e |-> "KeypairCreate", in |-> [ key |-> KB(c[2]) ] ]
 
+\* a tweaked key whose x is tiny, so that x + p still fits in 32 bytes: the check must accept the canonical bytes of x only.
+\* Q = lift_x(x); internal key P = Q - t*G; if P has odd y the even internal key is -P and the tweak -t leads to -Q (parity 1).
+ExpandTchkWrap(x, v) ==
+  LET l == LiftX(FromNat(x))  t == FromNat(9) IN
+  IF ~l[1] THEN [ e |-> "XonlyTweakCheck", in |-> [ ix |-> KB(FromNat(5)), t |-> KB(t), ox |-> KB(FromNat(x)), par |-> 0 ] ]
+  ELSE LET Q == l[2]  Pp == PSub(Q, PMulG(t))
+           odd == KaParity(Pp) = 1
+           tt == IF odd THEN SNeg(t) ELSE t
+           ox == IF v = 0 THEN KB(FromNat(x)) ELSE KB(Add(FromNat(x), P))
+       IN  [ e |-> "XonlyTweakCheck", in |-> [ ix |-> X32(Pp), t |-> KB(tt), ox |-> ox, par |-> IF odd THEN 1 ELSE 0 ] ]
+
 Expand(c) ==
-  CASE c[1] = "step"   -> KC(KeyPool[c[2]], << << c[3], c[4] >> >>)
+  CASE c[1] = "skraw"  -> [ e |-> "SeckeyRaw", in |-> [ key |-> KB(c[2]), op |-> c[3], t |-> KB(c[4]) ] ]
+    [] c[1] = "tchkwrap" -> ExpandTchkWrap(c[2], c[3])
+    [] c[1] = "step"   -> KC(KeyPool[c[2]], << << c[3], c[4] >> >>)
     [] c[1] = "rchain" -> KC(KeyPool[(c[2] % Len(KeyPool)) + 1], RndDescr(c[2]))
     [] c[1] = "create" -> IF c[3] = 1 THEN [ e |-> "PubkeyCreate", in |-> [ key |-> KB(c[2]) ] ]
                           ELSE [ e |-> "KeypairCreate", in |-> [ key |-> KB(c[2]) ] ]
